@@ -26,8 +26,9 @@ import (
 )
 
 const (
-	vf19KeyEMS = "C19:ems-session-offered-without-ems"
-	vf19KeyHRR = "C19:psk-parrot-hrr"
+	vf19KeyEMS         = "C19:ems-session-offered-without-ems"
+	vf19KeyHRR         = "C19:psk-parrot-hrr"
+	vf19KeyNoTicketExt = "C19:tls12-session-cached-spec-without-session-ticket-panics"
 
 	vf19TicketLifetime = 7 * 24 * time.Hour
 )
@@ -266,7 +267,13 @@ func (s *vf19Server) holdsGen(g int) bool {
 
 func (w *vf19World) serverConfig(name string, maxVers uint16, hrr CurveID, issuedNow *[]vf19Ticket) *Config {
 	s := w.servers[name]
-	leaf := vfLeaf(vfLeafSpec{KeyType: "ecdsa", Names: []string{name}, NotAfter: vfNow().Add(5 * 365 * 24 * time.Hour)})
+	// a.c19.test and b.c19.test are two names of one certificate (separate ticket keys): the certificate check in
+	// loadSession cannot mask a session that is looked up under the wrong name
+	names := []string{name}
+	if name != vf19Names[2] {
+		names = []string{vf19Names[0], vf19Names[1]}
+	}
+	leaf := vfLeaf(vfLeafSpec{KeyType: "ecdsa", Names: names, NotAfter: vfNow().Add(5 * 365 * 24 * time.Hour)})
 	cfg := &Config{
 		Certificates: []Certificate{*leaf},
 		MinVersion:   VersionTLS10,
@@ -471,6 +478,24 @@ func (w *vf19World) connect(t vfFataler, c vf19Conn) {
 	}
 	cerr, serr, cpn, spn := vf19Run(pair, pre)
 	if cpn != nil {
+		issued12 := false
+		w.mu.Lock()
+		for _, tk := range srv.issued {
+			if tk.Vers == VersionTLS12 {
+				issued12 = true
+			}
+		}
+		w.mu.Unlock()
+		if msg, ok := cpn.Val.(string); ok && strings.Contains(msg, "setSessionTicketExt failed: invalid state") && !id.HasTicket && issued12 {
+			// a TLS 1.2 session cached under this name by another identity, and a spec without session_ticket
+			w.log = append(w.log, "   -> client panicked: "+msg)
+			w.trace = append(w.trace, "cX")
+			w.last[c.Name] = &vf19Last{ident: id.Name, srvMax: c.SrvMax, hrr: hrrGroup, connIdx: idx}
+			st.Class("outcome:known:tls12-session-cached-spec-without-session-ticket")
+			st.KnownOrViolation(t, vf19KeyNoTicketExt, "%s (spec without session_ticket, skipping resumption on a nil extension is enabled) panics in BuildHandshakeState when the shared cache holds a TLS 1.2 session for %s: %s\nhistory:\n  %s",
+				id.Name, c.Name, msg, strings.Join(w.log, "\n  "))
+			return
+		}
 		fail("client panicked: %s", cpn)
 	}
 	if spn != nil {
@@ -827,6 +852,16 @@ func TestVerifC19Directed(t *testing.T) {
 		w.connect(t, vf19Conn{Ident: b, Name: vf19Names[0], SrvMax: VersionTLS12, OmitPSK: true})
 		w.connect(t, vf19Conn{Ident: b, Name: vf19Names[0], SrvMax: VersionTLS12, OmitPSK: true}) // non-EMS session resumes
 		w.connect(t, vf19Conn{Ident: a, Name: vf19Names[0], SrvMax: VersionTLS12, OmitPSK: true}) // non-EMS session, EMS hello: full handshake
+		w.finish()
+	}
+	// (a2) a TLS 1.2 session cached by another identity, then a spec without session_ticket under the same name
+	{
+		w := vf19NewWorld(st)
+		a, b := mk(chrome100, false), mk(chrome100, true, "ticket")
+		w.connect(t, vf19Conn{Ident: a, Name: vf19Names[2], SrvMax: VersionTLS12, OmitPSK: true})
+		w.connect(t, vf19Conn{Ident: b, Name: vf19Names[2], SrvMax: VersionTLS12, OmitPSK: true})
+		w.connect(t, vf19Conn{Ident: b, Name: vf19Names[2], SrvMax: VersionTLS13, OmitPSK: true})
+		w.connect(t, vf19Conn{Ident: a, Name: vf19Names[2], SrvMax: VersionTLS12, OmitPSK: true})
 		w.finish()
 	}
 	// (b) PSK parrot + HelloRetryRequest
